@@ -37,6 +37,11 @@ type Layout struct {
 	// V2Extra != 0 adds a second video representation "V600" whose last segment has V2Extra more (or fewer) frames:
 	// the representations then disagree in duration and livesim2 must leave the asset out.
 	V2Extra int `json:"v2extra,omitempty"`
+	// MPDSeconds (number form only): SegmentTemplate@duration in whole seconds without @timescale, as the bundled testpic assets have it
+	MPDSeconds bool `json:"mpd_seconds,omitempty"`
+	// Gap1 != 0 (video): the last sample of the first VoD segment is that many ticks shorter than nominal while the second segment
+	// keeps its decode time, so the raw segment table has a hole at its first boundary which the loader has to close
+	Gap1 int `json:"gap1,omitempty"`
 }
 
 type Clock struct{ Timescale, FrameDur int }
@@ -417,6 +422,9 @@ func (l Layout) Materialize(root string) (string, error) {
 			if k == 0 {
 				fs.Flags = mp4.SyncSampleFlags
 			}
+			if i == 0 && k == nf-1 && l.Gap1 > 0 && l.Gap1 < l.VFrameDur {
+				fs.Dur -= uint32(l.Gap1)
+			}
 			fss = append(fss, fs)
 			frameIdx++
 		}
@@ -541,6 +549,14 @@ func (l Layout) mpd(vTL, aTL, tTL string) string {
 	tmpl := func(ts int, nominalDur int, tl string) string {
 		if l.Form == "timeline" {
 			return fmt.Sprintf(`<SegmentTemplate initialization="$RepresentationID$/init.mp4" media="$RepresentationID$/$Time$.m4s" timescale="%d"><SegmentTimeline>%s</SegmentTimeline></SegmentTemplate>`, ts, tl)
+		}
+		if l.MPDSeconds {
+			// the bundled testpic style: nominal duration in whole seconds, no @timescale (so the MPD timescale is 1, not the media timescale)
+			secs := (nominalDur + ts/2) / ts
+			if secs < 1 {
+				secs = 1
+			}
+			return fmt.Sprintf(`<SegmentTemplate startNumber="%d" initialization="$RepresentationID$/init.mp4" media="$RepresentationID$/$Number$.m4s" duration="%d"/>`, l.StartNumber, secs)
 		}
 		return fmt.Sprintf(`<SegmentTemplate startNumber="%d" initialization="$RepresentationID$/init.mp4" media="$RepresentationID$/$Number$.m4s" timescale="%d" duration="%d"/>`, l.StartNumber, ts, nominalDur)
 	}
